@@ -318,7 +318,7 @@ func (m *MemSSA) transfer(in ssa.Instruction, cur map[string]*MemVer) {
 						k = "?"
 					} else if base := m.addrKey(args[idx]); base != "" {
 						k = base + tail
-					} else if pb := pathOf(args[idx]); strings.HasPrefix(pb, "A:") {
+					} else if pb := pathOf(args[idx]); privatePath(pb) {
 						continue
 					} else {
 						k = "?"
